@@ -366,6 +366,102 @@ def unreferenced_rules(an: Analysis, rep):
             f"yields i only under `i not in self.{mapattr}`, nothing otherwise" if ok_guard else "the yield is not guarded by 'index never met'")
 
 
+
+def find_decoder_table(an: Analysis):
+    """(class, rank method, unreferenced-entries method) of the decoder's table, by role: a non-frozen class used by from_code with a method
+    `(self, index) -> (entry, override)` and a generator method without parameters."""
+    seen = set()
+    for f in an.closure("from_code"):
+        ci = f.cls
+        if ci is None or ci.qual in seen or (ci.is_dataclass and ci.dc_args.get("frozen")):
+            continue
+        seen.add(ci.qual)
+        rank = unref = None
+        for m in ci.methods.values():
+            if m.name.startswith("__") or not isinstance(m.node, ast.FunctionDef):
+                continue
+            rets = [n for n in ast.walk(m.node) if isinstance(n, ast.Return) and n.value is not None]
+            gen = any(isinstance(n, (ast.Yield, ast.YieldFrom)) for n in ast.walk(m.node))
+            if len(m.params) == 2 and rets and all(isinstance(r.value, ast.Tuple) and len(r.value.elts) == 2 for r in rets) and not gen:
+                rank = m
+            elif len(m.params) == 1 and gen:
+                unref = m
+        if rank is not None and unref is not None:
+            return ci, rank, unref
+    raise AnalysisError("decoder table class (a rank method returning `(entry, override)` plus a generator of the unreferenced entries) not found")
+
+
+def table_sequences_rule(an: Analysis, rep, rule="R09.7"):
+    """The decoder's table evaluated on witness call sequences (finite domain: tables of four distinct entries, six orders of meeting them):
+    every call of the rank method returns the entry at the index and an override exactly when the index differs from its first-use rank;
+    the unreferenced-entries method lists exactly the indices never met, each with an override exactly when its index differs from its place
+    in the listing (counted on from the entries met)."""
+    from sa.feval import BlockOutcome, FevalError, Obj, ObjEval
+    rep.rule(rule, "rank method and unreferenced-entries method of the decoder's table give first-use ranks on witness call sequences", 2)
+    ci, rank, unref = find_decoder_table(an)
+    prog = an.prog
+
+    def resolve(name):
+        r = prog.resolve_global(ci.module, name, rank)
+        if r and r[0] == "func":
+            return r[1].node
+        return None
+    methods = {m.name: m.node for m in ci.methods.values() if isinstance(m.node, ast.FunctionDef)}
+    T = ("a", "b", "c", "d")
+    SEQS = [[0, 1, 2, 3], [0, 0, 1, 1], [2, 0, 2, 1, 0], [1], [], [3, 3, 0], [0, 1]]
+    bad_rank, bad_unref = [], []
+    n_calls = 0
+    for seq in SEQS:
+        ev = ObjEval(resolve, extra={}, methods=methods)
+        ev.module_assigns = ci.module.assigns
+        obj = Obj()
+        try:
+            first = True
+            for fl in ci.fields:
+                if fl.default_factory is not None:
+                    obj[fl.name] = ev.ev(ast.Call(func=fl.default_factory, args=[], keywords=[]), {})
+                elif fl.default is not None:
+                    obj[fl.name] = ev.ev(fl.default, {})
+                elif first:
+                    obj[fl.name] = T
+                    first = False
+                else:
+                    raise AnalysisError(f"{ci.qual}: second field without default ({fl.name}): how the table is constructed is not recognised")
+            if "__post_init__" in methods:
+                ev.call_method(methods["__post_init__"], obj)
+            met = {}
+            for k, i in enumerate(seq):
+                got = ev.call_method(rank.node, obj, i)
+                n_calls += 1
+                met.setdefault(i, len(met))
+                want = (T[i], i if met[i] != i else None)
+                if got != want:
+                    bad_rank.append(f"table {T}, indices met in the order {seq}: call #{k + 1} `{rank.name}({i})` gives {got!r}, expected {want!r} "
+                                    f"(entry {i} was met {'first' if met[i] == 0 else 'as number ' + str(met[i] + 1)}, so its first-use rank is {met[i]})")
+            listed = ev.call_method(unref.node, obj)
+            n_calls += 1
+            never = [i for i in range(len(T)) if i not in met]
+            if not (isinstance(listed, tuple) and all(isinstance(x, tuple) and len(x) == 2 for x in listed)):
+                raise AnalysisError(f"{unref.qual}: does not yield (entry, override) pairs on the witness table")
+            vals = [x[0] for x in listed]
+            if sorted(vals) != sorted(T[i] for i in never):
+                bad_unref.append(f"table {T}, indices met {seq}: `{unref.name}()` lists {vals}, the entries never met are {[T[i] for i in never]}")
+            else:
+                for pos, (v, ov) in enumerate(listed):
+                    i = T.index(v)
+                    r = len(met) + pos
+                    want = i if r != i else None
+                    if ov != want:
+                        bad_unref.append(f"table {T}, indices met {seq}: `{unref.name}()` gives entry {i} override {ov!r}, expected {want!r} (it is listed as number {r + 1} over all)")
+        except BlockOutcome as o:
+            bad_rank.append(f"table {T}, indices met {seq}: stops at `{norm_src(o.node)[:70]}`")
+        except (FevalError, KeyError, IndexError, TypeError, AttributeError) as e:
+            raise AnalysisError(f"{ci.qual}: table methods not evaluable on the witness sequences ({type(e).__name__}: {e})")
+    rep.add(rule, f"{rank.qual}::first-use rank on witness call sequences", not bad_rank, loc(rank.module, rank.node),
+            bad_rank[0] if bad_rank else f"{len(SEQS)} call sequences over a table of {len(T)} distinct entries: entry and override as specified on every call")
+    rep.add(rule, f"{unref.qual}::unreferenced entries on witness call sequences", not bad_unref, loc(unref.module, unref.node),
+            bad_unref[0] if bad_unref else f"lists exactly the never-met entries with first-use overrides after each of the {len(SEQS)} sequences ({n_calls} calls evaluated)")
+
 def run(an: Analysis, rep):
     rep.explanation = (
         "Decides that the decoder's first-use rank is a function of discovery state (the number of distinct indices met so far - the "
@@ -380,6 +476,7 @@ def run(an: Analysis, rep):
     rep.rule("R09.4", "additional args collected for all tables, each wrapped in its table's class", 4)
     from .common import purity
     rep.run(purity, an, rep, "R09.P", ["from_code"])
+    rep.run(table_sequences_rule, an, rep)
     f, ifst, assign, mapattr, idx = find_rank_site(an)
     self_ = f.params[0]
     rank = assign.value
